@@ -450,6 +450,8 @@ def judge(sr, drv, inp, res):
     opt = inp.get("options", {})
     for k, v in sorted(opt.items()):
         sr.dist("%s.opt.%s=%s" % (fmt, k, "list" if isinstance(v, list) and v else v))
+    if not opt and fmt != "edif":
+        sr.dist("%s.opt.defaults" % fmt)
     # ---- P on the implementation: unchanged (up to the documented EDIF effects) ----
     diffs = classify_diff(s0, s1)
     if fmt == "edif":
@@ -556,6 +558,8 @@ def judge(sr, drv, inp, res):
 # ------------------------------------------------------------------------------------------------
 
 def options_for(fmt, rng, names):
+    if fmt != "edif" and rng.random() < 0.25:
+        return {}  # the call's own defaults (a mutable default argument would accumulate here)
     if fmt == "verilog":
         return {"definition_list": ([] if rng.random() < 0.6 else rng.sample(names, min(len(names), rng.randint(1, 2)))),
                 "write_blackbox": rng.random() < 0.6, "defparam": rng.random() < 0.5}
